@@ -114,7 +114,7 @@ def execute(req):
 
     if req.get("md") is not None:
         return execute_md(req)
-    t0 = time.time()
+    t0 = time.process_time()
     mols = _build_batch(req)
     params = sp.make_params(req["method"], req.get("solver", "adaptive"), req.get("eps", 1e-6), sp2=req.get("sp2"),
                             force_mode=req.get("force_mode", "autodiff"), uhf=req.get("uhf", False), **req.get("extra", {}))  # fmt: skip
@@ -152,7 +152,7 @@ def execute(req):
         out.update(status="raised", **_exc_info(e))
         out["written"] = _written(molecule, RESULT_ATTRS)
         out["aux_written"] = _written(molecule, AUX_ATTRS)
-        out["t"] = time.time() - t0
+        out["t"] = time.process_time() - t0
         return out
     nc = sp.to_np(es.notconverged).astype(bool)
     nat = (spc > 0).sum(axis=1)
@@ -168,14 +168,14 @@ def execute(req):
         fin.append(ok)
     out.update(status="ok", nc=nc.tolist(), finite=fin, etot=[float(x) for x in sp.to_np(molecule.Etot)],
                qsum=[float(sp.to_np(molecule.q)[i, : nat[i]].sum()) for i in range(len(mols))])  # fmt: skip
-    out["t"] = time.time() - t0
+    out["t"] = time.process_time() - t0
     return out
 
 
 def execute_md(req):
     import torch
 
-    t0 = time.time()
+    t0 = time.process_time()
     mdq = req["md"]
     wd = MD.scratch_dir("c18")
     cwd = os.getcwd()
@@ -202,7 +202,7 @@ def execute_md(req):
             out["written"] = _written(molecule, RESULT_ATTRS + ["velocities", "acc"])
             out["aux_written"] = []
         out["files"] = sorted(os.listdir(wd))
-        out["t"] = time.time() - t0
+        out["t"] = time.process_time() - t0
         return out
     finally:
         os.chdir(cwd)
